@@ -93,3 +93,12 @@ chk("C11", MC,
     "index) and working counter at the positions append reported, padding to 46, rejection iff it does not fit, rejected "
     "append leaves the packet unchanged; sterile copy differs only by NOP on writer commands.",
     PY_NOTE, "symbolic execution of the real Python with byte ropes of symbolic length (z3 BV, path-exhaustive)", "B:8/C11")
+
+chk("C14", MC,
+    "The real Terminal.to_operational/get_state/set_state coroutines (through the real roundtrip encoding) run symbolically "
+    "against an AL-register terminal model on a deterministic event loop; start state, error flag, status code, unused status "
+    "bits, polls per transition (0..2, thorough 0..3) and the poll at which an error appears are solver variables, targets "
+    "enumerated. The recorded AL-control writes / AL-status reads are checked: ack first, one step at a time in order, never "
+    "above target, next request only after the previous state was reported, return/raise conditions. All paths explored.",
+    PY_NOTE + " AL state machine model written from ETG.1000.6 (protocol-conformant terminal).",
+    "symbolic execution of the real coroutines against a nondeterministic protocol model (z3, path-exhaustive)", "B:8/C14")
